@@ -118,9 +118,13 @@ def normalise_local_names(rel, module):
         cur = local_binding_order(fn)
         if cur == want or len(cur) != len(want):
             continue
-        mapping = {c: w for c, w in zip(cur, want) if c != w}
-        if not mapping:
+        # only names that are NEW are mapped, onto the reference names that DISAPPEARED, in order of first binding; a
+        # function whose locals are merely bound in another order (while -> for, statements moved) is left alone
+        fresh = [c for c in cur if c not in want]
+        gone = [w for w in want if w not in cur]
+        if not fresh or len(fresh) != len(gone):
             continue
+        mapping = dict(zip(fresh, gone))
         # no capture: a target name must not already be used in the function for something else
         used = {n.id for n in walk_local(fn) if isinstance(n, ast.Name)} | {a.arg for a in fn.args.args}
         if any(w in used and w not in cur for w in mapping.values()):
